@@ -431,6 +431,167 @@ theorem pop_CellInv {t u : CellStore} (h : CellInv t) (hb : t.blank ≠ -1) {nod
         rw [cellNodes_set_ne hc2n hnp hci']
       · rfl
 
+
+theorem getD_rows_append_left {rows t : List (List Int)} {i : Nat} (h : i < rows.length) :
+    (rows ++ t).getD i [] = rows.getD i [] := by
+  simp [List.getD_eq_getElem?_getD, List.getElem?_append_left h]
+
+theorem getD_freeRows_append {rows : List (List Int)} {sp m i : Nat} (h1 : rows.length ≤ i) (h2 : i < m) :
+    ((rows ++ freeRows sp rows.length m).getD i []).getD 0 (-1) = -1 := by
+  have : (rows ++ freeRows sp rows.length m).getD i [] =
+      freeRow sp (if rows.length + (i - rows.length) + 1 = m then (-1 : Int)
+        else ((rows.length + (i - rows.length) + 1 : Nat) : Int)) := by
+    rw [List.getD_eq_getElem?_getD, List.getElem?_append_right h1, ← List.getD_eq_getElem?_getD,
+      freeRows_getD (by omega)]
+  rw [this]
+  exact freeRow_getD0 _ _
+
+/-- the growth branch of `ref_cell_add`, explicit chunk -/
+def grown (s : CellStore) (chunk : Nat) : CellStore :=
+  { s with c2n := s.c2n ++ freeRows s.sizePer s.max (s.max + chunk), blank := (s.max : Int) }
+
+theorem grow_cases (s : CellStore) :
+    (s.blank ≠ -1 ∧ s.grow = some s) ∨
+    (s.blank = -1 ∧ MAX_LIMIT ≤ s.max ∧ s.grow = none) ∨
+    (s.blank = -1 ∧ s.max < MAX_LIMIT ∧ ∃ chunk, 0 < chunk ∧ s.grow = some (grown s chunk)) := by
+  unfold grow
+  by_cases hb : s.blank = -1
+  · simp only [hb, if_true]
+    by_cases hm : s.max = MAX_LIMIT
+    · exact Or.inr (Or.inl ⟨trivial, by omega, by simp [hm]⟩)
+    · simp only [hm, if_false]
+      by_cases hlt : MAX_LIMIT - s.max > 0
+      · refine Or.inr (Or.inr ⟨trivial, by omega, Nat.min (Nat.max 5000 (s.max + s.max / 2)) (MAX_LIMIT - s.max), ?_, ?_⟩)
+        · have : 5000 ≤ Nat.max 5000 (s.max + s.max / 2) := Nat.le_max_left _ _
+          rw [Nat.lt_min]; omega
+        · simp [hlt, grown]
+      · exact Or.inr (Or.inl ⟨trivial, by omega, by simp [hlt]⟩)
+  · exact Or.inl ⟨hb, by simp [hb]⟩
+
+theorem grown_facts {s : CellStore} (h : CellInv s) (hb : s.blank = -1) {chunk : Nat} (hchunk : 0 < chunk) :
+    CellInv (grown s chunk) ∧ (∀ c, (grown s chunk).validCell c = s.validCell c) ∧
+      (∀ c, s.validCell c = true → (grown s chunk).cellNodes c = s.cellNodes c) := by
+  obtain ⟨hper, hrows, ⟨l, hc, hnd, hmem⟩, hcount, hnonneg, hadj0⟩ := h
+  have hl : l = [] := (hc.nil_iff).1 hb
+  subst hl
+  have hvalid : ∀ c, (grown s chunk).validCell c = s.validCell c := by
+    intro c
+    rw [Bool.eq_iff_iff, validCell_iff, validCell_iff]
+    simp only [grown, c2nAt, row, CellStore.max, List.length_append, freeRows_length]
+    by_cases hlt : c.toNat < s.c2n.length
+    · rw [getD_rows_append_left hlt]
+      constructor
+      · rintro ⟨h0, _, h2⟩; exact ⟨h0, hlt, h2⟩
+      · rintro ⟨h0, _, h2⟩; exact ⟨h0, by omega, h2⟩
+    · constructor
+      · rintro ⟨h0, h1, h2⟩
+        exact absurd (getD_freeRows_append (sp := s.sizePer) (m := s.c2n.length + chunk)
+          (Nat.le_of_not_lt hlt) (by omega)) h2
+      · rintro ⟨_, h1, _⟩; omega
+  have hnodes : ∀ c, s.validCell c = true → (grown s chunk).cellNodes c = s.cellNodes c := by
+    intro c hv
+    obtain ⟨_, h1, _⟩ := validCell_iff.1 hv
+    simp only [cellNodes, row, grown, getD_rows_append_left h1]
+  refine ⟨⟨hper, ?_, ⟨List.range' s.max chunk, ?_, List.nodup_range', ?_⟩, ?_, ?_, ?_⟩, hvalid, hnodes⟩
+  · intro r hr
+    simp only [grown, List.mem_append] at hr
+    rcases hr with hr | hr
+    · exact hrows r hr
+    · obtain ⟨k, hk, rfl⟩ := List.mem_iff_getElem.1 hr
+      simp only [freeRows, List.getElem_map]
+      exact freeRow_length hper.2.2 _
+  · exact cellChain_freeRows s.c2n s.sizePer (s.max + chunk) chunk s.max rfl (Nat.le_refl _) hchunk
+  · intro i hi
+    simp only [grown, CellStore.max, List.length_append, freeRows_length] at hi
+    simp only [List.mem_range'_1, grown, c2nAt, row]
+    by_cases hlt : i < s.max
+    · have h1 := hmem i hlt
+      simp only [List.not_mem_nil, false_iff, c2nAt, row] at h1
+      simp only [CellStore.max] at hlt
+      rw [getD_rows_append_left hlt]
+      constructor
+      · intro h; simp only [CellStore.max] at h; omega
+      · intro h; exact absurd h h1
+    · simp only [CellStore.max] at hlt ⊢
+      have := getD_freeRows_append (rows := s.c2n) (sp := s.sizePer) (m := s.c2n.length + chunk)
+        (i := i) (by omega) (by omega)
+      simp only [this, iff_true]
+      omega
+  · simp only [grown, List.countP_append]
+    rw [hcount]
+    have : (freeRows s.sizePer s.max (s.max + chunk)).countP liveRow = 0 := by
+      rw [List.countP_eq_zero]
+      intro a ha
+      obtain ⟨k, hk, rfl⟩ := List.mem_iff_getElem.1 ha
+      simp only [freeRows, List.getElem_map, Bool.not_eq_true]
+      exact liveRow_false_iff.2 (freeRow_getD0 _ _)
+    omega
+  · intro c hv v hvm
+    rw [hvalid c] at hv
+    rw [hnodes c hv] at hvm
+    exact hnonneg c hv v hvm
+  · intro v c
+    rw [hvalid c]
+    show (s.adj.first v).count c = _
+    rw [hadj0 v c]
+    split
+    · rename_i hv; rw [hnodes c hv]
+    · rfl
+
+/-- `ref_cell_create` -/
+theorem create_CellInv (t : Refine.Gen.CellTables.CellType) (h : 2 ≤ t.nodePer) : CellInv (create t) := by
+  have hsp : 2 ≤ t.nodePer + (if t.lastNodeIsId then 1 else 0) := by omega
+  refine ⟨⟨by simp only [create]; omega, by simp only [create]; omega, hsp⟩, ?_,
+    ⟨List.range' 0 100, ?_, List.nodup_range', ?_⟩, ?_, ?_, ?_⟩
+  · intro r hr
+    simp only [create] at hr ⊢
+    obtain ⟨k, hk, rfl⟩ := List.mem_iff_getElem.1 hr
+    simp only [freeRows, List.getElem_map]
+    exact freeRow_length hsp _
+  · have := cellChain_freeRows [] (t.nodePer + (if t.lastNodeIsId then 1 else 0)) 100 100 0 (by omega)
+      (by simp) (by omega)
+    simpa [create] using this
+  · intro i hi
+    have hi' : i < 100 := by simpa [create, CellStore.max, freeRows_length] using hi
+    have := getD_freeRows_append (rows := []) (sp := t.nodePer + (if t.lastNodeIsId then 1 else 0))
+      (m := 100) (i := i) (by simp) hi'
+    simp only [List.nil_append, List.length_nil] at this
+    simp only [create, c2nAt, row, this, List.mem_range'_1, iff_true]
+    omega
+  · simp only [create]
+    have : (freeRows (t.nodePer + (if t.lastNodeIsId then 1 else 0)) 0 100).countP liveRow = 0 := by
+      rw [List.countP_eq_zero]
+      intro a ha
+      obtain ⟨k, hk, rfl⟩ := List.mem_iff_getElem.1 ha
+      simp only [freeRows, List.getElem_map, Bool.not_eq_true]
+      exact liveRow_false_iff.2 (freeRow_getD0 _ _)
+    rw [this]; rfl
+  · intro c hv
+    exfalso
+    obtain ⟨h0, h1, h2⟩ := validCell_iff.1 hv
+    have h1' : c.toNat < 100 := by simpa [create, CellStore.max, freeRows_length] using h1
+    have := getD_freeRows_append (rows := []) (sp := t.nodePer + (if t.lastNodeIsId then 1 else 0))
+      (m := 100) (i := c.toNat) (by simp) h1'
+    simp only [List.nil_append, List.length_nil] at this
+    exact h2 (by simpa [create, c2nAt, row] using this)
+  · intro v c
+    have hf : (create t).adj.first v = [] := by
+      simp only [create, Adj.create, Adj.first]
+      split
+      · rfl
+      · have := Adj.getD_append_replicate [] 10 v.toNat
+        simpa using this
+    have hnv : (create t).validCell c = false := by
+      rw [Bool.eq_false_iff]
+      intro hv
+      obtain ⟨h0, h1, h2⟩ := validCell_iff.1 hv
+      have h1' : c.toNat < 100 := by simpa [create, CellStore.max, freeRows_length] using h1
+      have := getD_freeRows_append (rows := []) (sp := t.nodePer + (if t.lastNodeIsId then 1 else 0))
+        (m := 100) (i := c.toNat) (by simp) h1'
+      simp only [List.nil_append, List.length_nil] at this
+      exact h2 (by simpa [create, c2nAt, row] using this)
+    rw [hf, hnv]; simp
+
 end CellStore
 
 end Refine.Model.CellStore
